@@ -415,6 +415,17 @@ func c10MixChainCheck(members [][]byte) string {
 			return fmt.Sprintf("member %d differs from the same file decoded alone: chained %s, alone %s", i, trunc(c, 300), trunc(a, 300))
 		}
 	}
+	// with decode options: what the options add (unknown-item lists) must be per member as well
+	resO := callEntry("DecodeChained+options", bytes.NewReader(data))
+	if resO.Panic != "" || resO.Err != nil || len(resO.Files) != len(members) {
+		return fmt.Sprintf("DecodeChained with all options: %d files, err=%v panic=%q", len(resO.Files), resO.Err, resO.Panic)
+	}
+	for i := range members {
+		alone := callEntry("Decode+options", bytes.NewReader(members[i]))
+		if a, c := dumpFile(alone.File), dumpFile(resO.Files[i]); a != c {
+			return fmt.Sprintf("with all options, member %d differs from the same file decoded alone: chained %s, alone %s", i, trunc(c, 300), trunc(a, 300))
+		}
+	}
 	rd := &countingReader{b: data}
 	one := safeDecode(rd)
 	if one.Panic != "" || one.Err != nil {
